@@ -30,6 +30,18 @@ def bodyIds (v : Version) (o : Opts) : BodyIds :=
   | .v5beta => { subWallet := o.subWallet.getD 0, net := toU32 o.netOr, wcByte := toU8 o.wc }
   | .v5r1 => { walletId := walletIdV5R1 o }
 
+/-- the id fields the body of the version carries (the others are not in the body) -/
+def BodyIds.restrict (ids : BodyIds) (v : Version) : BodyIds :=
+  match v.family with
+  | .v1v2 => {}
+  | .v3 | .v4 | .highload => { subWallet := ids.subWallet }
+  | .v5beta => { subWallet := ids.subWallet, net := ids.net, wcByte := ids.wcByte }
+  | .v5r1 => { walletId := ids.walletId }
+
+/-- the ranges of the Go field types: uint32, uint32, uint32, uint8 -/
+def BodyIds.WF (ids : BodyIds) : Prop :=
+  ids.subWallet < 4294967296 ∧ ids.walletId < 4294967296 ∧ ids.net < 4294967296 ∧ ids.wcByte < 256
+
 def opSignedExternal : Nat := 0x7369676e
 def opSignedInternal : Nat := 0x73696e74
 def opExtension : Nat := 0x6578746e
@@ -37,12 +49,13 @@ def actionSendMsgTag : Nat := 0x0ec3c86d
 
 /-! ### payloads -/
 
+/-- one message of a v1..v4 payload (and the value of one highload dictionary entry): mode byte, then the ref -/
+def payloadStep (b : CellB) (m : RawMsg) : Outcome CellB := (b.writeUint m.mode 8).bind fun b => b.addRef m.msg
+
 /-- `PayloadV1toV4.MarshalTLB`: at most 4 messages, each a mode byte and a ref -/
 def payloadV1toV4 (b : CellB) (msgs : List RawMsg) : Outcome CellB :=
   if msgs.length > 4 then .err "WalletPayloadV1toV4 supports only up to 4 messages"
-  else msgs.foldlM (fun b m => do
-    let b ← b.writeUint m.mode 8
-    b.addRef m.msg) b
+  else msgs.foldlM payloadStep b
 
 /-- `W5Actions.MarshalTLB`: empty list ↦ empty cell; otherwise `0x0ec3c86d mode ^rest ^msg` -/
 def w5Actions : List RawMsg → Outcome Cell
@@ -56,9 +69,7 @@ def w5Actions : List RawMsg → Outcome Cell
     pure b.toCell
 
 /-- the value stored under key i of the highload dictionary: `mode ++ ^msg` -/
-def highloadValue (b : CellB) (m : RawMsg) : Outcome CellB := do
-  let b ← b.writeUint m.mode 8
-  b.addRef m.msg
+def highloadValue (b : CellB) (m : RawMsg) : Outcome CellB := payloadStep b m
 
 /-- the dictionary cell of `PayloadHighload.MarshalTLB` (`Hashmap[Uint16, Any]` with keys 0..n-1). For no message the
 Go code used to marshal an empty `Hashmap` into an empty cell; the caller decides what to do with 0 messages. -/
@@ -131,6 +142,28 @@ def signedCell (v : Version) (ids : BodyIds) (op seqno validUntil rnd : Nat) (ms
     let b ← b.addRef a
     pure b.toCell
 
+/-! ### the layouts, written out (what `signedCell` returns when nothing overflows; see C14 `fits_in_cell`) -/
+
+def modeBits (msgs : List RawMsg) : List Bool := msgs.flatMap fun m => natToBits 8 m.mode
+def msgCells (msgs : List RawMsg) : List Cell := msgs.map (·.msg)
+
+/-- the nested action list of v5: `0x0ec3c86d mode ^rest ^msg`, the first message outermost -/
+def actionsCell : List RawMsg → Cell
+  | [] => .ordinary [] []
+  | m :: rest => .ordinary (natToBits 32 actionSendMsgTag ++ natToBits 8 m.mode) [actionsCell rest, m.msg]
+
+/-- the signed cell of v3, v4, v5r1, v5 beta as a value -/
+def signedLayout (v : Version) (ids : BodyIds) (op seqno validUntil : Nat) (msgs : List RawMsg) : Cell :=
+  match v.family with
+  | .v3 => .ordinary (natToBits 32 ids.subWallet ++ natToBits 32 validUntil ++ natToBits 32 seqno ++ modeBits msgs) (msgCells msgs)
+  | .v4 => .ordinary (natToBits 32 ids.subWallet ++ natToBits 32 validUntil ++ natToBits 32 seqno ++ natToBits 8 0 ++ modeBits msgs)
+      (msgCells msgs)
+  | .v5r1 => .ordinary (natToBits 32 op ++ natToBits 32 ids.walletId ++ natToBits 32 validUntil ++ natToBits 32 seqno ++ [true] ++ [false])
+      [actionsCell msgs]
+  | .v5beta => .ordinary (natToBits 32 op ++ natToBits 32 ids.net ++ natToBits 8 ids.wcByte ++ natToBits 8 0 ++
+      natToBits 32 ids.subWallet ++ natToBits 32 validUntil ++ natToBits 32 seqno ++ [false]) [actionsCell msgs]
+  | _ => .ordinary [] []
+
 /-- where the 64-byte signature goes: in front of the signed bits (`signBodyCell`: `SignedMsgBody{Sign, Message Any}`)
 for v3/v4/highload, after them (`bodyCell.WriteBytes(signature)`) for v5 -/
 def attachSignature (v : Version) (sig : List UInt8) (signed : Cell) : Outcome Cell :=
@@ -154,6 +187,11 @@ def createSignedBody (H : List UInt8 → List UInt8) (sign : List UInt8 → List
 
 /-- `ton.CreateExternalMessage` + `tlb.Marshal`: `ext_in_msg_info$10 src:addr_none$00 dest:addr_std$10 nothing$0
 wc:int8 addr:bits256 import_fee:0000`, init `nothing$0` or `just$1 right$1 ^StateInit`, body `right$1 ^body` -/
+def writeInit (b : CellB) (init : Option Cell) : Outcome CellB :=
+  match init with
+  | none => b.write [false]
+  | some si => (b.write [true, true]).bind fun b => b.addRef si
+
 def extMessage (dest : Address) (body : Cell) (init : Option Cell) : Outcome Cell := do
   let b ← CellB.empty.write [true, false]
   let b ← b.write [false, false]
@@ -162,15 +200,16 @@ def extMessage (dest : Address) (body : Cell) (init : Option Cell) : Outcome Cel
   let b ← b.write (intToBits 8 (toI8 dest.workchain))
   let b ← b.writeBytes (dest.hash.take 32 ++ List.replicate (32 - dest.hash.length) 0)
   let b ← b.writeUint 0 4
-  let b ← match init with
-    | none => b.write [false]
-    | some si => do
-      let b ← b.write [true]
-      let b ← b.write [true]
-      b.addRef si
+  let b ← writeInit b init
   let b ← b.write [true]
   let b ← b.addRef (.ordinary body.bits body.refs)
   pure b.toCell
+
+/-- the envelope written out (what `extMessage` returns for a 32-byte address hash; C14 `fits_in_cell`) -/
+def envelope (dest : Address) (body : Cell) (init : Option Cell) : Cell :=
+  .ordinary ([true, false] ++ [false, false] ++ [true, false] ++ [false] ++ intToBits 8 (toI8 dest.workchain) ++
+      bytesToBits dest.hash ++ natToBits 4 0 ++ (if init.isSome then [true, true] else [false]) ++ [true])
+    (init.toList ++ [.ordinary body.bits body.refs])
 
 /-! ### decoding an external message (tlb.Message.UnmarshalTLB on the ext_in fragment) -/
 
@@ -208,15 +247,33 @@ def readMsgAddress (r : CellR) : Outcome (Option (Int × List Bool) × CellR) :=
 /-- `StateInit` struct decode; a set library bit is outside the modelled fragment -/
 def skipStateInit (r : CellR) : Outcome CellR := do
   let (sd, r) ← r.readBit
-  let r ← if sd then (r.readBits 5).bind (fun x => .ok x.2) else pure r
+  let r ← r.skipIf sd 5
   let (sp, r) ← r.readBit
-  let r ← if sp then (r.readBits 2).bind (fun x => .ok x.2) else pure r
+  let r ← r.skipIf sp 2
   let (c, r) ← r.readBit
-  let r ← if c then (r.nextRef).bind (fun x => .ok x.2) else pure r
+  let r ← r.skipRefIf c
   let (d, r) ← r.readBit
-  let r ← if d then (r.nextRef).bind (fun x => .ok x.2) else pure r
+  let r ← r.skipRefIf d
   let (lib, r) ← r.readBit
   if lib then .err "unmodelled: state-init with libraries" else pure r
+
+/-- `Either StateInit ^StateInit` after the `Maybe` bit -/
+def skipInit (r : CellR) : Outcome CellR := do
+  let (right, r) ← r.readBit
+  if right then do
+    let (si, r) ← r.nextRef
+    if si.ty = tyLibrary then .err "library cell decoding is not configured properly"
+    else (skipStateInit (CellR.ofCell si)).bind fun _ => .ok r
+  else skipStateInit r
+
+def skipInitIf (r : CellR) (hasInit : Bool) : Outcome CellR := if hasInit then skipInit r else .ok r
+
+/-- `Either X ^X` body: a library cell in the reference is kept as it is, anything else is copied as an ordinary cell -/
+def readBody (r : CellR) : Outcome Cell := do
+  let (right, r) ← r.readBit
+  if right then
+    (r.nextRef).bind fun x => .ok (if x.1.ty = tyLibrary then x.1 else .ordinary x.1.bits x.1.refs)
+  else pure r.remaining
 
 structure ExtMsg where
   dest : Option (Int × List Bool)
@@ -227,39 +284,26 @@ structure ExtMsg where
 /-- `tlb.Unmarshal(msg, &tlb.Message)` for a message cell: the cell is hashed first (depth limit), then
 `CommonMsgInfo` (first matching tag: `int_msg_info$0`, `ext_in_msg_info$10`, `ext_out_msg_info$11`), `init`, `body`.
 Only `ext_in_msg_info` is modelled. -/
+def decodeExtIn (r : CellR) : Outcome ExtMsg := do
+  let (_, r) ← readMsgAddress r
+  let (dest, r) ← readMsgAddress r
+  let (ln, r) ← r.readUint 4                 -- import_fee: VarUInteger 16
+  let (_, r) ← r.readBits (ln * 8)
+  let (hasInit, r) ← r.readBit
+  let r ← skipInitIf r hasInit
+  let body ← readBody r
+  pure { dest := dest, hasInit := hasInit, body := body }
+
 def decodeExtMessage (c : Cell) : Outcome ExtMsg :=
   if c.ty = tyLibrary then .err "library cell decoding is not configured properly"
   else if c.depthO > maxDepth then .err "depth is too big"
-  else do
-    let r := CellR.ofCell c
-    match r.bits with
+  else
+    match c.bits with
     | [] => .err "can not decode sumtype"
     | false :: _ => .err "unmodelled: int_msg_info"
     | [true] => .err "can not decode sumtype"
     | true :: true :: _ => .err "unmodelled: ext_out_msg_info"
-    | true :: false :: rest =>
-      let r := { r with bits := rest }
-      let (_, r) ← readMsgAddress r
-      let (dest, r) ← readMsgAddress r
-      let (ln, r) ← r.readUint 4                 -- import_fee: VarUInteger 16
-      let (_, r) ← r.readBits (ln * 8)
-      let (hasInit, r) ← r.readBit
-      let r ← if hasInit then do
-          let (right, r) ← r.readBit
-          if right then
-            let (si, r) ← r.nextRef
-            if si.ty = tyLibrary then .err "library cell decoding is not configured properly"
-            else
-              let _ ← skipStateInit (CellR.ofCell si)
-              pure r
-          else skipStateInit r
-        else pure r
-      let (right, r) ← r.readBit
-      if right then
-        let (b, _) ← r.nextRef
-        if b.ty = tyLibrary then pure { dest := dest, hasInit := hasInit, body := b }
-        else pure { dest := dest, hasInit := hasInit, body := .ordinary b.bits b.refs }
-      else pure { dest := dest, hasInit := hasInit, body := r.remaining }
+    | true :: false :: rest => decodeExtIn { bits := rest, refs := c.refs }
 
 /-! ### decoders of the bodies -/
 
@@ -317,6 +361,9 @@ def readActionsRef (r : CellR) : Outcome (List (Nat × Option Cell) × CellR) :=
     let l ← readW5Actions (a.depthO + 2) a
     pure (l, r)
 
+def readActionsRefIf (r : CellR) (flag : Bool) : Outcome (List (Nat × Option Cell) × CellR) :=
+  if flag then readActionsRef r else .ok ([], r)
+
 def actionsToMsgs (l : List (Nat × Option Cell)) : List RawMsg :=
   l.map fun (mode, m) => { mode := mode, msg := m.getD (.ordinary [] []) }
 
@@ -364,7 +411,7 @@ def decodeBody (v : Version) (body : Cell) : Outcome Decoded :=
           let (vu, r) ← r.readUint 32
           let (seq, r) ← r.readUint 32
           let (hasA, r) ← r.readBit
-          let (acts, r) ← if hasA then readActionsRef r else pure ([], r)
+          let (acts, r) ← readActionsRefIf r hasA
           let (hasE, r) ← r.readBit
           if hasE then .err "unmodelled: extended actions"
           else
